@@ -4,7 +4,7 @@ import ast
 from ..core.model import AnchorError, FuncInfo
 from ..core.cfg import walk_shallow, cfg_of
 from ..core.facts import U, atoms_of
-from ..engine import fn_name, kwarg, local_defs, returns_of, stmts_in, deref
+from ..engine import argn, fn_name, kwarg, local_defs, returns_of, stmts_in, deref
 
 EXPLANATION = (
     "Decides structural clauses of C19: S1 the Pareto filter's dominance test is 'weakly better in all objectives and strictly "
@@ -74,7 +74,7 @@ class Kinds:
             # lists grown by append / extend
             for x in walk_shallow(f.node):
                 if isinstance(x, ast.Call) and fn_name(x) in ("append", "extend") and U(x.func.value) == e.id and x.args:
-                    ks.add(self.of_expr(f, x.args[0], depth + 1))
+                    ks.add(self.of_expr(f, argn(x, 0), depth + 1))
             ks.discard(UNK)
             ks.discard("EMPTY")
             return ks.pop() if len(ks) == 1 else UNK
@@ -88,12 +88,12 @@ class Kinds:
         if isinstance(e, ast.Call):
             n = fn_name(e)
             if n in ("array", "asarray", "list", "tolist", "copy", "flatten", "ravel", "astype"):
-                arg = e.args[0] if e.args else (e.func.value if isinstance(e.func, ast.Attribute) else None)
+                arg = argn(e, 0) if e.args else (e.func.value if isinstance(e.func, ast.Attribute) else None)
                 if n in ("tolist", "copy", "flatten", "ravel", "astype") and isinstance(e.func, ast.Attribute):
                     arg = e.func.value
                 return self.of_expr(f, arg, depth + 1)
             if n == "argsort":
-                arg = e.args[0] if e.args else (e.func.value if isinstance(e.func, ast.Attribute) else None)
+                arg = argn(e, 0) if e.args else (e.func.value if isinstance(e.func, ast.Attribute) else None)
                 k = self.of_expr(f, arg, depth + 1)
                 return ORDER if k in (SCORE, VALUES) else (SCORE if k == ORDER else UNK)
             if n == "arange":
@@ -168,7 +168,7 @@ def s1(ctx, rep):
                     return
         raise AnchorError("pareto_efficient: `dominated = all(a <= X) * any(a < X)` not recognised")
     st, al, an, bo = dom
-    ca, cn = al.args[0], an.args[0]
+    ca, cn = argn(al, 0), argn(an, 0)
     ok = isinstance(ca, ast.Compare) and isinstance(cn, ast.Compare) and len(ca.ops) == 1 and len(cn.ops) == 1
 
     def norm(c):
@@ -223,7 +223,7 @@ def s2(ctx, rep):
         if isinstance(v, ast.Subscript) and isinstance(v.slice, ast.UnaryOp) and isinstance(v.slice.op, ast.Invert) \
                 and U(v.slice.operand) == mv and U(v.value) == k:
             rem = k
-    ok = rem is not None and U(d[mv].args[0]).endswith(f"[{rem}]")
+    ok = rem is not None and U(argn(d[mv], 0)).endswith(f"[{rem}]")
     rep.put(ok, "S2", "agreement", "nondominated_sort: front computed on the remaining rows; remaining = remaining[~mask]", f, loops[0],
             f"mask = pareto_efficient(X[{rem}])", "the remaining set is not reduced by exactly the current front")
     front = [k for k, v in d.items() if isinstance(v, ast.Subscript) and rem is not None and U(v.value) == rem and U(v.slice) == mv]
@@ -231,18 +231,18 @@ def s2(ctx, rep):
         front = [k for k, v in d.items() if isinstance(v, ast.Subscript) and U(v.slice) == mv] or ["?"]
     ok = len(front) == 1 and rem is not None
     app = [x for s in body for x in walk_shallow(s) if isinstance(x, ast.Call) and fn_name(x) == "append"]
-    a0 = deref(f, app[0].args[0]) if len(app) == 1 else None
+    a0 = deref(f, argn(app[0], 0)) if len(app) == 1 else None
     ok = ok and a0 is not None and U(a0).startswith(front[0] + "[")
     rep.put(ok, "S2", "agreement", "nondominated_sort: each round appends exactly the current front (permuted)", f, app[0] if app else None, "")
     # the permutation inside the front is a permutation of the front (index by epsilon-net ranks of the same front)
     ok = False
     if app:
-        idx = deref(f, app[0].args[0])
+        idx = deref(f, argn(app[0], 0))
         while isinstance(idx, ast.Call):
             idx = deref(f, idx.func.value)
         if isinstance(idx, ast.Subscript):
             src = deref(f, idx.slice)
-            ok = isinstance(src, ast.Call) and fn_name(src) == "compute_epsilon_net" and f"[{front[0]}]" in U(src.args[0])
+            ok = isinstance(src, ast.Call) and fn_name(src) == "compute_epsilon_net" and f"[{front[0]}]" in U(argn(src, 0))
     rep.put(ok, "S2", "agreement", "nondominated_sort: within-layer order is a permutation computed on that layer", f, None, "")
     # the loop runs while rows remain
     from ..kinds import parity as _par
@@ -280,9 +280,9 @@ def s3(ctx, rep):
     b = P.func("syne_tune.optimizer.schedulers.multiobjective.moasha._Bracket.on_result")
     ok = False
     for x in walk_shallow(b.node):
-        if isinstance(x, ast.Call) and fn_name(x) == "searchsorted" and len(x.args) == 2 and isinstance(x.args[0], ast.Call) \
-                and fn_name(x.args[0]) == "sorted" and U(x.args[0].args[0]) == U(x.args[1]):
-            pv = U(x.args[1])
+        if isinstance(x, ast.Call) and fn_name(x) == "searchsorted" and len(x.args) == 2 and isinstance(argn(x, 0), ast.Call) \
+                and fn_name(argn(x, 0)) == "sorted" and U(argn(x.args[0], 0)) == U(argn(x, 1)):
+            pv = U(argn(x, 1))
             ds = [d for d in local_defs(b, pv) if not isinstance(d, tuple)]
             ok = len(ds) == 1 and isinstance(ds[0], ast.Call) and "priority" in U(ds[0].func)
     rep.put(ok, "S3", "kind", "_Bracket.on_result ranks the priority vector by searchsorted(sorted(p), p)", b, None,
@@ -310,7 +310,7 @@ def s4(ctx, rep):
     from ..engine import deref
     rkv = vars_assigned_from(b, is_rank_vec)
     lastv = vars_assigned_from(b, lambda v: isinstance(v, ast.Subscript) and U(v.slice) == "-1" and is_rank_vec(v.value))
-    mv = call[0].args[0]
+    mv = argn(call[0], 0)
     src = [d for d in local_defs(b, mv.id) if not isinstance(d, tuple)][0] if isinstance(mv, ast.Name) else mv
     ok = False
     for x in ast.walk(src):
@@ -368,17 +368,17 @@ def s4(ctx, rep):
             it = deref(binit, v.generators[0].iter)
             first = v.elt.elts[0] if isinstance(v.elt, ast.Tuple) and v.elt.elts else v.elt
             src_order = None
-            if isinstance(it, ast.Call) and fn_name(it) == "reversed" and it.args and isinstance(deref(binit, it.args[0]), ast.Call) \
-                    and fn_name(deref(binit, it.args[0])) == "range":
+            if isinstance(it, ast.Call) and fn_name(it) == "reversed" and it.args and isinstance(deref(binit, argn(it, 0)), ast.Call) \
+                    and fn_name(deref(binit, argn(it, 0))) == "range":
                 src_order = "desc"
             elif isinstance(it, ast.Call) and fn_name(it) == "range":
-                src_order = "desc" if len(it.args) == 3 and U(it.args[2]).startswith("-") else "asc"
+                src_order = "desc" if len(it.args) == 3 and U(argn(it, 2)).startswith("-") else "asc"
             elif isinstance(it, ast.ListComp) and len(it.generators) == 1:
                 # a list of milestones built first, then paired with {}
                 it2 = deref(binit, it.generators[0].iter)
                 first = it.elt if U(first) == U(v.generators[0].target) else first
                 if isinstance(it2, ast.Call) and fn_name(it2) == "range":
-                    src_order = "desc" if len(it2.args) == 3 and U(it2.args[2]).startswith("-") else "asc"
+                    src_order = "desc" if len(it2.args) == 3 and U(argn(it2, 2)).startswith("-") else "asc"
                 elif isinstance(it2, ast.Call) and fn_name(it2) == "reversed":
                     src_order = "desc"
             # the level grows with the loop variable: min_t * rf ** (k + s)
@@ -431,7 +431,7 @@ def s4(ctx, rep):
     rep.put(ok, "S4", "agreement", "MOASHA._metric_dict: columns in the fixed order of self._metrics, each times its own sign", md,
             dcs[0] if dcs else None, "", why)
     # the consumer is positional
-    ok = any(isinstance(x, ast.Call) and fn_name(x) == "list" and x.args and isinstance(x.args[0], ast.Call) and fn_name(x.args[0]) == "values"
+    ok = any(isinstance(x, ast.Call) and fn_name(x) == "list" and x.args and isinstance(argn(x, 0), ast.Call) and fn_name(argn(x, 0)) == "values"
              for x in walk_shallow(b.node))
     rep.info("S4", "agreement", "_Bracket.on_result reads recorded dicts positionally (list(x.values()))", b, None, str(ok))
 
